@@ -271,10 +271,11 @@ Section Main.
     forallb (fun nt => type_ok S (snd nt)) (types S) = true /\
     root_ok fixed S (Some (query S)) = true /\ root_ok fixed S (mutation S) = true /\
     root_ok fixed S (subscription S) = true /\
-    forallb (directive_ok fixed S) (directives S) = true.
+    forallb (directive_ok fixed S) (directives S) = true /\
+    forallb (fun n => match lookup S n with Some _ => true | None => false end) (additional S) = true.
   Proof.
     pose proof Hok as H. unfold schema_ok, schema_ok_gen in H.
-    apply andb_true_iff in H as [H H6]. apply andb_true_iff in H as [H H5].
+    apply andb_true_iff in H as [H H7]. apply andb_true_iff in H as [H H6]. apply andb_true_iff in H as [H H5].
     apply andb_true_iff in H as [H H4]. apply andb_true_iff in H as [H H3].
     apply andb_true_iff in H as [H1 H2]. auto 10.
   Qed.
@@ -528,7 +529,7 @@ Section Main.
     - (* QIntroDirectives *)
       simpl. split; [reflexivity|]. intros h Hin.
       apply in_flat_map in Hin as [d [Hd Hin]]. apply in_map_iff in Hin as [a [Ha HIa]]. subst h.
-      destruct ok_parts as [_ [_ [_ [_ [_ D]]]]]. rewrite forallb_forall in D. specialize (D d Hd).
+      destruct ok_parts as [_ [_ [_ [_ [_ [D _]]]]]]. rewrite forallb_forall in D. specialize (D d Hd).
       unfold directive_ok in D. apply andb_true_iff in D as [_ D]. rewrite forallb_forall in D.
       specialize (D a HIa). apply andb_true_iff in D as [Hk Hr]. cbn [fx_dirs fixed] in Hr.
       destruct (ref_kind_ok_lookup _ _ _ Hk) as [y Ly]. eapply visible_intro; eauto.
@@ -813,7 +814,7 @@ Section EraseOk.
 
   Theorem erase_schema_ok : schema_ok E = true.
   Proof.
-    destruct (ok_parts S Hok) as [P1 [P2 [P3 [P4 [P5 P6]]]]].
+    destruct (ok_parts S Hok) as [P1 [P2 [P3 [P4 [P5 [P6 P7]]]]]].
     unfold schema_ok, schema_ok_gen. repeat (apply andb_true_iff; split).
     - unfold erase. cbn [types]. rewrite map_fst_map. apply nodup_filter. exact P1.
     - unfold erase at 2. cbn [types]. apply forallb_forall. intros [n x'] HI. simpl.
@@ -832,6 +833,9 @@ Section EraseOk.
       assert (V : alive (base (snd a)) = true).
       { apply is_nil_true in Hr. eapply (ref_visible _ _ [] Hk); [rewrite Hr|]; reflexivity. }
       rewrite (ref_kind_ok_erase _ _ Hk V), (req_of_E _ V), Hr. reflexivity.
+    - unfold erase at 2. cbn [additional]. apply forallb_forall. intros n Hn.
+      apply filter_In in Hn as [_ V]. destruct (vis_inv S F Hok _ V) as [x [_ [_ [_ LE]]]].
+      rewrite LE. reflexivity.
   Qed.
 End EraseOk.
 
@@ -851,8 +855,8 @@ Proof.
     unfold field_features. apply in_flat_map. exists (f, fd). auto. }
   assert (AL : forall n x, lookup S n = Some x -> visible S G n = true).
   { intros n x L. eapply visible_intro; eauto. eapply TR. apply assoc_In. exact L. }
-  destruct (ok_parts S Hok) as [P1 [P2 [P3 [P4 [P5 P6]]]]].
-  unfold erase. destruct S as [ts q m sub ds]. simpl in *. f_equal.
+  destruct (ok_parts S Hok) as [P1 [P2 [P3 [P4 [P5 [P6 P7]]]]]].
+  unfold erase. destruct S as [ts q m sub ds adds]. simpl in *. f_equal.
   - rewrite filter_all by (intros [n x] HI; simpl; eapply TR; eauto).
     apply map_id_in. intros [n x] HI. simpl. f_equal.
     pose proof (In_types_lookup _ Hok n x HI) as L.
@@ -865,10 +869,37 @@ Proof.
     + f_equal. apply filter_all. intros mm Hm.
       pose proof (ok_type _ Hok _ _ L) as T. simpl in T. apply andb_true_iff in T as [_ T].
       rewrite forallb_forall in T. specialize (T mm Hm).
-      destruct (lookup {| types := ts; query := q; mutation := m; subscription := sub; directives := ds |} mm) eqn:Lm;
+      destruct (lookup {| types := ts; query := q; mutation := m; subscription := sub; directives := ds; additional := adds |} mm) eqn:Lm;
         [|discriminate]. eapply AL; eauto.
   - destruct m as [mn|]; simpl; [|reflexivity]. rewrite (root_visible _ G _ P4). reflexivity.
   - destruct sub as [sn|]; simpl; [|reflexivity]. rewrite (root_visible _ G _ P5). reflexivity.
+  - apply filter_all. intros n Hn. rewrite forallb_forall in P7. specialize (P7 n Hn).
+    destruct (lookup {| types := ts; query := q; mutation := m; subscription := sub; directives := ds; additional := adds |} n) eqn:Ln;
+      [|discriminate]. eapply AL; eauto.
+Qed.
+
+(** ** physical erasure (unreachable types unregistered) coincides with [erase] unless a type
+    that needs nothing the request lacks was referenced only by deleted elements *)
+Lemma filter_nil {A} (p : A -> bool) l : filter p l = [] -> forall x, In x l -> p x = false.
+Proof.
+  induction l as [|y r IH]; simpl; intros H x Hx; [contradiction|].
+  destruct (p y) eqn:P; [discriminate|]. destruct Hx as [Hx | Hx]; [subst; exact P | auto].
+Qed.
+
+Lemma erase_physical_no_orphans S F : excl_orphaned_type S F = false -> erase_physical S F = erase S F.
+Proof.
+  unfold excl_orphaned_type, orphaned. intro H. apply negb_false_iff, is_nil_true in H.
+  pose proof (filter_nil _ _ H) as K.
+  unfold erase_physical, restrict. rewrite filter_all.
+  - destruct (erase S F); reflexivity.
+  - intros nt Hnt. specialize (K (fst nt) (in_map fst _ _ Hnt)). apply negb_false_iff in K. exact K.
+Qed.
+
+Theorem noninterference_physical {A} (p : prog A) S F G :
+  schema_ok S = true -> subset F G = true -> excl_orphaned_type S F = false ->
+  run fixed S F [] p = run fixed (erase_physical S F) G [] p.
+Proof.
+  intros Hok HFG Hex. rewrite (erase_physical_no_orphans S F Hex). apply noninterference; auto.
 Qed.
 
 (** ** witnesses: the pinned code violates the property at each repaired place *)
@@ -891,7 +922,8 @@ Definition W : schema :=
        (nm "A", NObject [(nm "x", wfield "Int" "")] [nm "I"; nm "GI"] []);
        (nm "B", NObject [(nm "y", wfield "Int" "")] [nm "J"] []);
        (nm "Query", NObject [(nm "i", wfield "I" "G"); (nm "j", wfield "J" "B")] [] [])];
-     query := nm "Query"; mutation := None; subscription := None; directives := [] |}.
+     query := nm "Query"; mutation := None; subscription := None; directives := [];
+     additional := [nm "G"; nm "A"; nm "B"] |}.
 
 (** a gated Mutation root type *)
 Definition W_root : schema :=
@@ -899,7 +931,8 @@ Definition W_root : schema :=
        (nm "Int", NScalar []);
        (nm "Mutation", NObject [(nm "m", wfield "Int" "")] [] [fa]);
        (nm "Query", NObject [(nm "ping", wfield "Int" "")] [] [])];
-     query := nm "Query"; mutation := Some (nm "Mutation"); subscription := None; directives := [] |}.
+     query := nm "Query"; mutation := Some (nm "Mutation"); subscription := None; directives := [];
+     additional := [] |}.
 
 (** a directive argument of a gated enum type *)
 Definition W_dir : schema :=
@@ -908,7 +941,7 @@ Definition W_dir : schema :=
        (nm "E", NEnum [(nm "V", false)] [fa]);
        (nm "Query", NObject [(nm "ping", wfield "Int" "")] [] [])];
      query := nm "Query"; mutation := None; subscription := None;
-     directives := [(nm "d", [(nm "e", StNamed (nm "E"))])] |}.
+     directives := [(nm "d", [(nm "e", StNamed (nm "E"))])]; additional := [] |}.
 
 Lemma intro_refuted_before_fix :
   schema_ok W = true /\ subset [] [fa] = true /\
@@ -959,4 +992,24 @@ Lemma exec_lookup_blind :
   schema_ok W = true /\
   ask fixed W [] (QNamedE (nm "G")) <> ask fixed (erase W []) [fa] (QNamedE (nm "G")) /\
   ask fixed W [] (QNamedV (nm "G")) = ask fixed (erase W []) [fa] (QNamedV (nm "G")).
+Proof. vm_compute. repeat split; try reflexivity; intro H; discriminate H. Qed.
+
+(** known finding [orphaned-type-stays-visible]: T needs no feature, but only the gated field
+    Query.g refers to it; a request without fa still finds T by name and in the type listing,
+    while the schema built from the reduced definition does not register T at all *)
+Definition W_orphan : schema :=
+  {| types := [
+       (nm "Int", NScalar []);
+       (nm "T", NObject [(nm "n", wfield "Int" "")] [] []);
+       (nm "Query", NObject [(nm "ping", wfield "Int" "");
+                             (nm "g", {| f_type := StNamed (nm "T"); f_args := []; f_req := [fa]; f_dep := false; f_ret := nm "T" |})] [] [])];
+     query := nm "Query"; mutation := None; subscription := None; directives := []; additional := [] |}.
+
+Lemma orphan_refuted :
+  schema_ok W_orphan = true /\ excl_orphaned_type W_orphan [] = true /\
+  map fst (types (erase W_orphan [])) = [nm "Int"; nm "T"; nm "Query"] /\
+  map fst (types (erase_physical W_orphan [])) = [nm "Int"; nm "Query"] /\
+  ask fixed W_orphan [] QIntroTypes <> ask fixed (erase_physical W_orphan []) [fa] QIntroTypes /\
+  ask fixed W_orphan [] (QIntroType (nm "T")) <> ask fixed (erase_physical W_orphan []) [fa] (QIntroType (nm "T")) /\
+  ask fixed W_orphan [] (QNamedV (nm "T")) <> ask fixed (erase_physical W_orphan []) [fa] (QNamedV (nm "T")).
 Proof. vm_compute. repeat split; try reflexivity; intro H; discriminate H. Qed.
